@@ -100,6 +100,8 @@ theorem rk4Iter_total {σ : Type} (P : R4Params α) (f : Rhs α n) (ob : Obs σ 
     refine ⟨by omega, ?_⟩
     split at h
     · cases h
+    split at h
+    · cases h
     · rename_i obs' y' k' m' heq
       have hm := (afterCb_go_meter f ob _ _ _ _ _ _ _ obs' y' k' m' heq).2
       split at h
